@@ -213,6 +213,8 @@ def std_facts(prog, f, g=None, extra_kill=None, attr_kill=None, expand=True):
   if not expand:
     return g, facts1
 
+  intermediate = {}
+
   def expanded_test(node, kinds=None):
     """The branch condition with boolean temporaries replaced by their (must-)definitions."""
     kinds = kinds or (ast.BoolOp, ast.Compare, ast.UnaryOp, ast.Call, ast.Attribute, ast.Name, ast.Subscript, ast.IfExp)
@@ -235,12 +237,16 @@ def std_facts(prog, f, g=None, extra_kill=None, attr_kill=None, expand=True):
           return e
         return n
     t = ast.parse(u(node.ast), mode='eval').body     # (deepcopy would follow the parent pointers)
+    stages = []
     for _ in range(3):
       changed[0] = False
       t = Sub().visit(t)
       if not changed[0]:
         break
+      ast.fix_missing_locations(t)
+      stages.append(ast.parse(u(t), mode='eval').body)     # every level of substitution is a fact of its own
     ast.fix_missing_locations(t)
+    intermediate[(node.id, kinds)] = stages[:-1]
     return t
 
   cache = {}
@@ -265,6 +271,13 @@ def std_facts(prog, f, g=None, extra_kill=None, attr_kill=None, expand=True):
       tb = cache_b[node.id]
       if tb is not None and u(tb) != u(node.ast) and (t is None or u(tb) != u(t)):
         out.extend(('c', tx, p) for tx, p in decompose(tb, kind == 'T'))
+      seen_txt = {u(node.ast), u(t) if t is not None else '', u(tb) if tb is not None else ''}
+      for key_, stages_ in list(intermediate.items()):
+        if key_[0] == node.id:
+          for st_ in stages_:
+            if u(st_) not in seen_txt:
+              seen_txt.add(u(st_))
+              out.extend(('c', tx, p) for tx, p in decompose(st_, kind == 'T'))
     return out
 
   facts2 = g.must_facts(edge_facts2, kill)
